@@ -13,9 +13,11 @@ CONSTANTS MaxCalls,      \* budget of tag/view API calls
           Restarts       \* TRUE: the process may be killed between two steps and restarted (C12; spends a call)
 
 VARIABLES clock, calls,
-          lost           \* history: captures that were only queued when the process was killed (never imported afterwards)
+          lost,          \* history: captures that were only queued when the process was killed (never imported afterwards)
+          fkey,          \* [file -> Seq(Nat)] sort key of the file's name (restart stacks the files in name order)
+          epoch          \* number of restarts so far
 
-mcvars == <<vars, clock, calls, lost>>
+mcvars == <<vars, clock, calls, lost, fkey, epoch>>
 
 \* ---- the world (the Go harness has the same one: harness/manager/world_test.go) ----
 MCCaps   == {1, 2, 3}
@@ -66,32 +68,39 @@ ApiEvents ==
              \cup {EvC("ConvReset", "", <<c>>, "", 0) : c \in ConvNames}
              \cup {EvC("ViewConvert", "", <<c>>, v, s) : c \in ConvNames, v \in DOMAIN views, s \in 0 .. 2})
 
-Spend == calls' = calls + 1 /\ UNCHANGED <<clock, lost>>
-Free  == UNCHANGED <<clock, calls, lost>>
-NewFile == clock' = clock + 1 /\ UNCHANGED <<calls, lost>>
+\* file names: an import output carries its creation time, a merge output the name of its newest input plus ".m0"
+\* (merger.go, mergedFilename); keys of deleted files are dropped
+KeepKeys == fkey' = [x \in DOMAIN files' |-> fkey[x]]
+Spend == calls' = calls + 1 /\ UNCHANGED <<clock, lost, epoch>> /\ KeepKeys
+Free  == UNCHANGED <<clock, calls, lost, epoch>> /\ KeepKeys
+NewFile(f, key) == /\ clock' = clock + 1 /\ UNCHANGED <<calls, lost, epoch>>
+                   /\ fkey' = [x \in DOMAIN files' |-> IF x = f THEN key ELSE fkey[x]]
+LexLess(a, b) ==
+    \E i \in 1 .. (IF Len(a) > Len(b) THEN Len(a) ELSE Len(b)) :
+        /\ \A j \in 1 .. (i - 1) : j <= Len(a) /\ j <= Len(b) /\ a[j] = b[j]
+        /\ \/ i > Len(a) /\ i <= Len(b)
+           \/ i <= Len(a) /\ i <= Len(b) /\ a[i] < b[i]
 Budget == calls < MaxCalls
 AnyP == DOMAIN tags \cup TagNames \cup {""}
 
 \* a call is valid iff the specification's precondition holds; an invalid call is rejected and is a no-op
 Call(ok, action) == Budget /\ IF ok THEN action /\ Spend ELSE (Invalid /\ Rejected /\ Spend)
 
-\* the index files in the order of their names (names carry the creation time)
-FilesByName == LET ns == {n \in 1 .. clock : FileName(n) \in DOMAIN files}
-                   sq == SeqOfSet(ns)
-               IN [i \in DOMAIN sq |-> FileName(sq[i])]
-\* the known finding C12.StreamsKept:reordered: the name order of the served files differs from the order they are
-\* served in (an import file created before a merge output but installed after it).  Restarts are explored from the
-\* other states only; the finding itself is replayed on the real service by a regression schedule.
+\* the index files in the order of their names
+FilesByName == LET rank(f) == Cardinality({g \in DOMAIN files : LexLess(fkey[g], fkey[f])}) + 1
+               IN [i \in 1 .. Cardinality(DOMAIN files) |-> CHOOSE f \in DOMAIN files : rank(f) = i]
+\* the name order of the served files is the order they are served in (C12: a restart stacks them like the killed process)
 NameOrderIsServeOrder ==
-    LET pos(sq, x) == CHOOSE i \in DOMAIN sq : sq[i] = x IN
-    \A x, y \in Range(indexes) : pos(indexes, x) < pos(indexes, y) => pos(FilesByName, x) < pos(FilesByName, y)
+    /\ \A f, g \in DOMAIN files : f # g => fkey[f] # fkey[g]
+    /\ \A i, j \in DOMAIN indexes : i < j => LexLess(fkey[indexes[i]], fkey[indexes[j]])
 Step(e) ==
     CASE e.a = "ApiImport"     -> ApiImport(e.k) /\ Free
-      [] e.a = "ImportCompute" -> ImportCompute(FileName(clock + 1)) /\ NewFile
+      [] e.a = "ImportCompute" -> ImportCompute(FileName(clock + 1)) /\ NewFile(FileName(clock + 1), <<clock + 1>>)
       [] e.a = "ImportDone"    -> (\E p \in AnyP : ImportDone(p)) /\ Free
       [] e.a = "TagCompute"    -> TagCompute /\ Free
       [] e.a = "TagDone"       -> (\E p \in AnyP : TagDone(p)) /\ Free
-      [] e.a = "MergeCompute"  -> MergeCompute(FileName(clock + 1)) /\ NewFile
+      [] e.a = "MergeCompute"  -> /\ MergeCompute(FileName(clock + 1))
+                                  /\ NewFile(FileName(clock + 1), Append(fkey[jobs.merge.idx[Len(jobs.merge.idx)]], 0))
       [] e.a = "MergeDone"     -> MergeDone /\ Free
       [] e.a = "ConvCompute"   -> ConvCompute /\ Free
       [] e.a = "ConvDone"      -> (\E p \in AnyP : ConvDone(p)) /\ Free
@@ -109,14 +118,13 @@ Step(e) ==
       [] e.a = "Crash"         -> Budget /\ Crashes /\ UNCHANGED vars /\ Spend
       [] e.a = "Restart"       -> /\ Budget /\ Restarts
                                   /\ \E p \in AnyP : Restart(FilesByName, Durable(tags), p)
-                                  /\ NameOrderIsServeOrder
                                   /\ lost' = lost \cup Range(queue)
-                                  /\ calls' = calls + 1 /\ UNCHANGED clock
+                                  /\ calls' = calls + 1 /\ epoch' = epoch + 1 /\ UNCHANGED clock /\ KeepKeys
       [] e.a = "SetConverters" -> Call(SetConvOK(e.name, Range(e.convs)), SetConverters(e.name, Range(e.convs)))
       [] e.a = "ConvReset"     -> Budget /\ ConvReset(e.convs[1]) /\ Spend
       [] e.a = "ViewConvert"   -> Budget /\ ViewConvert(e.v, e.k, e.convs[1]) /\ Spend
 
-MCInit == Init /\ clock = 0 /\ calls = 0 /\ lost = {}
+MCInit == Init /\ clock = 0 /\ calls = 0 /\ lost = {} /\ fkey = <<>> /\ epoch = 0
 MCNext == \E e \in JobEvents \cup ApiEvents : Step(e)
 MCSpec == MCInit /\ [][MCNext]_mcvars
 
@@ -125,9 +133,9 @@ MCSpec == MCInit /\ [][MCNext]_mcvars
 MCViewComplete == CompleteFor(indexes, Processed \ lost)
 \* C12 (action property): a restart shows every stream that was visible, under its old id, with at least its data
 StreamsKeptStep ==
-    (calls' = calls + 1 /\ views' = <<>> /\ unmerge' = 0 /\ queue' = <<>> /\ Durable(tags') = Durable(tags) /\ use' # use) =>
-        \A e \in Visible(indexes) : \E e2 \in VisibleIn(files', indexes') : e2[1] = e[1] /\ e2[2] = e[2] /\ e[3] \subseteq e2[3]
-
+    epoch' # epoch =>
+        /\ \A e \in Visible(indexes) : \E e2 \in VisibleIn(files', indexes') : e2[1] = e[1] /\ e2[2] = e[2] /\ e[3] \subseteq e2[3]
+        /\ Durable(tags') = [t \in DOMAIN tags |-> [Durable(tags)[t] EXCEPT !.M = IF IsMarkName(t) THEN Durable(tags')[t].M ELSE @]]
 StreamsKeptProp == [][StreamsKeptStep]_mcvars
 
 EnvDone == calls = MaxCalls /\ Caps \subseteq known \cup Range(queue) /\ views = <<>>
